@@ -282,3 +282,169 @@ pub fn run_c14(sc: &C14Scenario) -> Outcome {
     sched::end();
     Outcome { obs: h.finish(), violations }
 }
+
+// ---------------------------------------------------------------------
+// The seam itself.  In `run_c14` the hook replaces what lies behind
+// `Runtime::spawn_blocking*`; this scenario installs no hook at all, so the
+// calls go to tokio's real blocking pool, and it checks the one thing that
+// then does not depend on the schedule: *which thread* creates the value, runs
+// the closures and destroys it (never the thread that awaits and drops the
+// wrapper), that the destructor runs exactly once, and how a panic is reported.
+
+struct RealVal {
+    tx: std::sync::mpsc::Sender<(&'static str, std::thread::ThreadId)>,
+}
+
+impl Drop for RealVal {
+    fn drop(&mut self) {
+        let _ = self.tx.send(("destroy", std::thread::current().id()));
+    }
+}
+
+pub fn run_c14_real_runtime() -> Outcome {
+    use std::time::Duration;
+    let mut viol: Vec<Violation> = Vec::new();
+    let mut flag = |key: &str, msg: String| {
+        if !viol.iter().any(|v| v.key == key) {
+            viol.push(Violation { property: "C14".into(), key: key.into(), msg });
+        }
+    };
+    // 0: current-thread runtime, 1: multi-thread runtime (the task is pinned to
+    // the thread that calls block_on in both)
+    let flavour = choose_free(2);
+    // 0: closures complete, 1: the second closure panics, 2: wrapper dropped right after creation
+    let history = choose_free(3);
+    let rt = if flavour == 0 {
+        tokio::runtime::Builder::new_current_thread().build().expect("runtime")
+    } else {
+        tokio::runtime::Builder::new_multi_thread().worker_threads(2).build().expect("runtime")
+    };
+    let (tx, rx) = std::sync::mpsc::channel::<(&'static str, std::thread::ThreadId)>();
+    let me = std::thread::current().id();
+    let tx2 = tx.clone();
+    let ran = catch_unwind(AssertUnwindSafe(|| rt.block_on(async move {
+        let txc = tx2.clone();
+        let w = match SyncWrapper::new(Runtime::Tokio1, move || {
+            let _ = txc.send(("create", std::thread::current().id()));
+            Ok::<RealVal, ()>(RealVal { tx: txc })
+        })
+        .await
+        {
+            Ok(w) => w,
+            Err(_) => return (vec!["new-failed".into()], None),
+        };
+        let mut res = Vec::new();
+        if history != 2 {
+            let t1 = tx2.clone();
+            let r = w
+                .interact(move |_v: &mut RealVal| {
+                    let _ = t1.send(("closure", std::thread::current().id()));
+                    7u32
+                })
+                .await;
+            res.push(match r {
+                Ok(7) => "ok".to_string(),
+                Ok(n) => format!("ok:{}", n),
+                Err(deadpool_sync::InteractError::Panic(_)) => "panic".into(),
+                Err(deadpool_sync::InteractError::Aborted) => "aborted".into(),
+            });
+        }
+        if history == 1 {
+            let t2 = tx2.clone();
+            let r = w
+                .interact(move |_v: &mut RealVal| -> u32 {
+                    let _ = t2.send(("closure", std::thread::current().id()));
+                    // a real unwind without the panic hook's message on stderr
+                    std::panic::resume_unwind(Box::new("USER-PANIC"))
+                })
+                .await;
+            res.push(match r {
+                Ok(_) => "ok".to_string(),
+                Err(deadpool_sync::InteractError::Panic(_)) => "panic".into(),
+                Err(deadpool_sync::InteractError::Aborted) => "aborted".into(),
+            });
+        }
+        let poisoned = w.is_mutex_poisoned();
+        drop(w);
+        (res, Some(poisoned))
+    })));
+    let (res, poisoned): (Vec<String>, Option<bool>) = match ran {
+        Ok(x) => x,
+        Err(p) => {
+            flag("interact-panicked", format!("SyncWrapper panicked on the async side (real tokio runtime, flavour {}, history {}): {}", flavour, history, explorer::panic_msg(&p)));
+            (vec!["panicked".into()], None)
+        }
+    };
+    drop(tx);
+    // the destructor runs in the background: wait for it (generously)
+    let mut events: Vec<(&'static str, std::thread::ThreadId)> = Vec::new();
+    let deadline = std::time::Instant::now() + Duration::from_secs(60);
+    loop {
+        match rx.recv_timeout(Duration::from_millis(50)) {
+            Ok(e) => {
+                let done = e.0 == "destroy";
+                events.push(e);
+                if done {
+                    // anything after the destructor (a second one?) arrives at once
+                    while let Ok(e) = rx.recv_timeout(Duration::from_millis(20)) {
+                        events.push(e);
+                    }
+                    break;
+                }
+            }
+            Err(std::sync::mpsc::RecvTimeoutError::Disconnected) => break,
+            Err(std::sync::mpsc::RecvTimeoutError::Timeout) => {
+                if std::time::Instant::now() > deadline {
+                    break;
+                }
+            }
+        }
+    }
+    drop(rt);
+    while let Ok(e) = rx.try_recv() {
+        events.push(e);
+    }
+    let desc = format!("runtime flavour {} history {}", if flavour == 0 { "current-thread" } else { "multi-thread" }, history);
+    for (what, tid) in &events {
+        if *tid == me {
+            flag(
+                match *what {
+                    "create" => "constructed-off-blocking-thread",
+                    "closure" => "closure-off-blocking-thread",
+                    _ => "destroyed-off-blocking-thread",
+                },
+                format!("{}: '{}' happened on the thread that awaits and drops the wrapper (real tokio blocking pool, no hook installed)", desc, what),
+            );
+        }
+    }
+    let creates = events.iter().filter(|e| e.0 == "create").count();
+    let destroys = events.iter().filter(|e| e.0 == "destroy").count();
+    if res.first().map(|s| s.as_str()) == Some("panicked") {
+        // already flagged
+    } else if res.first().map(|s| s.as_str()) == Some("new-failed") {
+        flag("new-failed", format!("{}: SyncWrapper::new did not produce a wrapper", desc));
+    } else {
+        if creates != 1 {
+            flag("construct-count", format!("{}: value constructed {} times", desc, creates));
+        }
+        if destroys != 1 {
+            flag("destructor-count", format!("{}: destructor ran {} times within 60 s of dropping the wrapper", desc, destroys));
+        }
+        let expect: Vec<&str> = match history {
+            0 => vec!["ok"],
+            1 => vec!["ok", "panic"],
+            _ => vec![],
+        };
+        if res.iter().map(|s| s.as_str()).collect::<Vec<_>>() != expect {
+            flag("wrong-interact-result", format!("{}: interact results {:?}, expected {:?}", desc, res, expect));
+        }
+        if poisoned != Some(history == 1) {
+            flag("poison-flag", format!("{}: is_mutex_poisoned() = {:?} after results {:?}", desc, poisoned, res));
+        }
+    }
+    explorer::count_step();
+    let mut h = std::collections::hash_map::DefaultHasher::new();
+    (flavour, history, creates, destroys, &res).hash(&mut h);
+    note_state(h.finish());
+    Outcome { obs: h.finish(), violations: viol }
+}
